@@ -1,48 +1,12 @@
-import FqModel.Scalar
-/-! C02: `expandF16ToF32` is exact on all 65 536 half precision patterns — kernel evaluation
-    (`decide +kernel`) in 16 chunks of 4096, lifted by `allRange_spec`. Core Lean only. -/
+import Proofs.C02F16Base
+import Proofs.C02F16a
+import Proofs.C02F16b
+import Proofs.C02F16c
+import Proofs.C02F16d
+/-! C02: `expandF16ToF32` is exact on all 65 536 half precision patterns (16 kernel-evaluated chunks
+    of 4096 in Proofs/C02F16a..d.lean, lifted by `allRange_spec`). Core Lean only. -/
 namespace Proofs.C02
 open FqModel FqModel.Scalar
-
-def allRange (f : Nat → Bool) : Nat → Nat → Bool
-  | 0, lo => f lo
-  | d+1, lo => allRange f d lo && allRange f d (lo + 2 ^ d)
-
-theorem allRange_spec (f : Nat → Bool) : ∀ d lo, allRange f d lo = true → ∀ h, lo ≤ h → h < lo + 2 ^ d → f h = true := by
-  intro d
-  induction d with
-  | zero =>
-    intro lo h0 h h1 h2
-    have : h = lo := by simp at h2; omega
-    subst this; simpa [allRange] using h0
-  | succ d ih =>
-    intro lo h0 h h1 h2
-    simp only [allRange, Bool.and_eq_true] at h0
-    rw [Nat.pow_succ] at h2
-    by_cases hc : h < lo + 2 ^ d
-    · exact ih lo h0.1 h h1 hc
-    · exact ih (lo + 2 ^ d) h0.2 h (by omega) (by omega)
-
-def f16ok (h : Nat) : Bool := (val32 (expandF16ToF32 h)).same (val16 h)
-
-set_option maxRecDepth 100000
-
-theorem f16_chunk0 : allRange f16ok 12 0 = true := by decide +kernel
-theorem f16_chunk1 : allRange f16ok 12 4096 = true := by decide +kernel
-theorem f16_chunk2 : allRange f16ok 12 8192 = true := by decide +kernel
-theorem f16_chunk3 : allRange f16ok 12 12288 = true := by decide +kernel
-theorem f16_chunk4 : allRange f16ok 12 16384 = true := by decide +kernel
-theorem f16_chunk5 : allRange f16ok 12 20480 = true := by decide +kernel
-theorem f16_chunk6 : allRange f16ok 12 24576 = true := by decide +kernel
-theorem f16_chunk7 : allRange f16ok 12 28672 = true := by decide +kernel
-theorem f16_chunk8 : allRange f16ok 12 32768 = true := by decide +kernel
-theorem f16_chunk9 : allRange f16ok 12 36864 = true := by decide +kernel
-theorem f16_chunk10 : allRange f16ok 12 40960 = true := by decide +kernel
-theorem f16_chunk11 : allRange f16ok 12 45056 = true := by decide +kernel
-theorem f16_chunk12 : allRange f16ok 12 49152 = true := by decide +kernel
-theorem f16_chunk13 : allRange f16ok 12 53248 = true := by decide +kernel
-theorem f16_chunk14 : allRange f16ok 12 57344 = true := by decide +kernel
-theorem f16_chunk15 : allRange f16ok 12 61440 = true := by decide +kernel
 
 theorem f16_all (h : Nat) (hh : h < 65536) : f16ok h = true := by
   have e : (2 : Nat) ^ 12 = 4096 := by decide
